@@ -395,6 +395,42 @@ func (lp *linProver) canon(v ssa.Value) ssa.Value {
 	if !ok || u.Op != token.MUL {
 		return v
 	}
+	if al, isAlloc := u.X.(*ssa.Alloc); isAlloc {
+		// a local kept in memory (named result with defer, variable captured by address only
+		// for loads/stores): the value of the one store that dominates the load with no other
+		// store to the cell on any path in between
+		lp.canonMem[v] = v
+		var sts []*ssa.Store
+		for _, ref := range *al.Referrers() {
+			switch x := ref.(type) {
+			case *ssa.Store:
+				if x.Addr != ssa.Value(al) {
+					return v // the address itself is stored somewhere
+				}
+				sts = append(sts, x)
+			case *ssa.UnOp, *ssa.DebugRef:
+			default:
+				return v // address escapes (call argument, closure, field address, ...)
+			}
+		}
+		for _, st := range sts {
+			if !dominates(st, u) {
+				continue
+			}
+			clean := true
+			for _, s2 := range sts {
+				if s2 != st && between(st, s2, u) {
+					clean = false
+				}
+			}
+			if clean {
+				r := lp.canon(st.Val)
+				lp.canonMem[v] = r
+				return r
+			}
+		}
+		return v
+	}
 	fa, ok := u.X.(*ssa.FieldAddr)
 	if !ok {
 		return v
